@@ -1429,7 +1429,7 @@ def source_tie(ctx):
             if not ok:
                 bad.append((st, msg))
         defs = defs + "\n" + qdefs
-    ctx.obligation("tie:pinned statements of esutil/random.py and coords.atbound (%d functions)" % len(c19_translate.PINS), not pins, "; ".join(pins))
+    ctx.obligation("tie:pinned statements (random.py _genrand_accum, random_indices; coords.atbound) (%d functions)" % len(c19_translate.PINS), not pins, "; ".join(pins))
     for pn in pins:
         bad.append(("source text the hand model ModelQ.v was written from has changed: " + pn, ""))
     lemmas = lemmas + qlem
@@ -1462,9 +1462,11 @@ TRUSTED = [
     "min(max), rng.uniform(low, high) as low + (high-low)*u, k-th generator call = k-th deviate, atbound(x, 0, 360) as "
     "Model.atbound whose loops run at most once for |x| <= 720 (proved: atbound_once)), and for skipping the listed "
     "shape-handling statements (ndarray promotion, scalar unwrapping, rng default)",
-    "assumed, monitored per case: numpy.linalg.cholesky returns a lower-triangular M with M M^T = cov (oracle; "
-    "chol_oracle_b); rng.uniform(low, high) = low + (high-low)*u for both generator families (stub generators implement "
-    "it; seeded real generators are compared through twin deviates)",
+    "monitored per case: numpy.linalg.cholesky returns a lower-triangular M with M M^T = cov (chol_oracle_b, sound: "
+    "C19_cholesky_oracle_monitor_sound); in the model that contract is a theorem (cholR: correct, unique, defined exactly on the "
+    "symmetric positive-definite matrices), the float factor itself is not compared with cholR.  Assumed: rng.uniform(low, high) "
+    "= low + (high-low)*u for both generator families (stub generators implement it; seeded real generators are compared through "
+    "twin deviates); the k-th generator call hands out the k-th block of the deviate stream (stub protocol monitored)",
     "modelled, not verified: IEEE rounding of the formula chains and libm (the gap between the R model and the float "
     "result is measured per case against kernel-checked enclosures: 1e-9 deg on the sky, 4e-15 in sin(dec)); "
     "scipy.integrate.cumulative_trapezoid, ndarray.searchsorted, numpy.dot/reshape/transpose (re-implemented in Gallina); "
